@@ -29,9 +29,69 @@ ASSUMPTIONS = [
 ]
 
 
+def _plan_amends(proj, seed):
+    """A plan that, after declaring its steps, amends an input that a step of ANOTHER plan
+    builds: it is deferred, and dispatched again once that file is there, while the steps it
+    declared in its first run may still be running (they are detached at that dispatch and
+    recycled when the second run declares them again)."""
+    from sim import gen
+
+    prng = random.Random(derive_seed(seed, "plan-amend"))
+    plans = {p["name"]: p for p in proj["plans"]}
+    sources = set(proj["sources"])
+    cands = []
+    for st in proj["steps"]:
+        if st.get("optional") or st["plan"] not in plans:
+            continue
+        if any(q not in sources for v, a in st["acts"] for q in gen.read_paths(v, a)):
+            continue
+        for v, a in st["acts"]:
+            if v == "write":
+                cands.append((st["plan"], a))
+    owners = sorted({st["plan"] for st in proj["steps"] if st["plan"] in plans})
+
+    def below(a, b):
+        """Is plan a the plan b or one of its descendants?"""
+        while a is not None:
+            if a == b:
+                return True
+            a = plans[a]["parent"] if a in plans else None
+        return False
+
+    # The producer must not be declared by the amending plan or below it: a plan that waits for
+    # what only its own subtree can build is a different matter (see DESIGN 15.9, open lead).
+    parents = {p["parent"] for p in proj["plans"]}
+
+    def declared_outside(path, b):
+        """Is the source declared static (directly or by a tree) by a plan that is not b?"""
+        for t, owner in proj["trees"].items():
+            if path.startswith(t):
+                return owner != b
+        return proj["statics"].get(path) not in (None, b)
+
+    producers = {o: st for st in proj["steps"] for v, o in st["acts"] if v == "write"}
+    pairs = [
+        (b, o)
+        for b in owners
+        if b not in parents  # a leaf plan: nothing but its own steps hangs below it
+        for (a, o) in sorted(cands)
+        if not below(a, b)
+        and all(declared_outside(q, b) for v, x in producers[o]["acts"] for q in gen.read_paths(v, x))
+    ]
+    if not pairs:
+        return
+    b, o = prng.choice(pairs)
+    plan = plans[b]
+    plan["extra_ops"] = [*plan.get("extra_ops", []), ["amend", {"inp": [gen._rel(o, plan["wd"])]}]]
+
+
 def gen_scenario(seed, tier="quick", opts=None):
     sc = history.gen_history(seed, never=("bad",), masks=frozenset(["drop_producer", "move_step"]),
                              nphases=random.Random(seed).randint(1, 3), max_size=7 if tier == "quick" else 10)
+    if derive_seed(seed, "plan-amend?") % 3 == 0:
+        for ph in sc["phases"]:
+            _plan_amends(ph["project"], seed)
+        sc["plan_amend"] = True
     rng = random.Random(derive_seed(seed, "c05"))
     npoints = rng.randint(3, 6)
     sc["crash"] = [
@@ -46,7 +106,7 @@ def gen_scenario(seed, tier="quick", opts=None):
 def _run(sc, name, base, crash_points=None, copies=None):
     root = os.path.join(base, f"{sc['seed']}-{name}")
     sched = sc["schedule"]
-    uni = Universe(root, Chooser(sched["seed"], mode=sched.get("mode", "seeded")))
+    uni = Universe(root, Chooser(sched["seed"], mode=sched.get("mode", "seeded"), profile=sched.get("profile")))
     w = uni.world
     results = []
     counts = {}
@@ -143,6 +203,8 @@ def run_scenario(sc) -> Result:
                     res.stats["probe.checking_at_crash"] += 1
                 if row[M.COL["state"]] == M.RUNNING:
                     res.stats["probe.running_at_crash"] += 1
+                    if snap_c.nodes[i][3]:
+                        res.stats["probe.detached_running_at_crash"] += 1
             for i, (st, hj) in snap_c.files.items():
                 if st == M.F["UNCONFIRMED"]:
                     res.stats["probe.unconfirmed_at_crash"] += 1
